@@ -94,6 +94,14 @@ size_t vg_a1, vg_a2;
 
 #define VMIN(a, b) ((a) < (b) ? (a) : (b))
 
+/* anchor used by annot/str.c.str.ann / ustr.c.str.ann: cbmc 6.11 crashes on an anchor whose base is the NULL
+ * pointer, so the units of the empty (NULL,0,0) state compile it away (their loops are unwound, tier B) */
+#ifdef U_EMPTY
+# define VSTR_ANCHOR(p, base) ((void) 0)
+#else
+# define VSTR_ANCHOR(p, base) VERIF_ANCHOR(p, base)
+#endif
+
 /* ---- the real code ----------------------------------------------------------- */
 #ifdef VSTR_WITH_STRINGS
 # include "src/strings.c"
